@@ -41,6 +41,10 @@ class Prop:
         """what of an answer this property constrains (default: everything; panic / crash / hang
         are compared by class, the message and site are diagnostics only)"""
         k = klass(ans)
+        if op.split(" ", 1)[0] in ("json", "walk", "iter"):
+            # whole-API operations: the model only knows the outcome class (their detailed oracles
+            # live in the cross-cutting properties, C18 and C19)
+            return "noimg" if ans.startswith("noimg") else k
         if k == "panic":
             return "panic"
         if k in ("crash", "ub"):
